@@ -111,6 +111,7 @@ fn c08_final(w: &mut World) -> Result<(), (String, String)> {
 
 fn c08_hist(input: &Input, obs: &mut Obs) -> Result<(), Fail> {
     let mut s = Src::new(input.bytes());
+    world_variant(&mut s);
     let nclients = 1 + s.below(4);
     let mut w = World::new(nclients, false, obs.want_render).map_err(|e| Fail::new("harness-world", e))?;
     let skeleton = s.weighted(&[10, 3, 3, 3]);
@@ -475,6 +476,7 @@ fn adversary_op(w: &mut World, s: &mut Src, a: usize, obs: &mut Obs) {
 
 fn c09_hist(input: &Input, obs: &mut Obs) -> Result<(), Fail> {
     let mut s = Src::new(input.bytes());
+    world_variant(&mut s);
     let nadv = 1 + s.below(3);
     let n = 1 + nadv;
     let mut w = World::new(n + 3, false, obs.want_render).map_err(|e| Fail::new("harness-world", e))?;
@@ -666,6 +668,9 @@ fn c09_hist(input: &Input, obs: &mut Obs) -> Result<(), Fail> {
 /// 6 shutdown(WR) 7 close 8 answer the adversary's oldest request 9 answer it with 300 KB
 /// 10 answer it and flush_outgoing_writes
 fn c09_macro(input: &Input, obs: &mut Obs) -> Result<(), Fail> {
+    // construction variant fixed for this sub (replays must not depend on earlier cases)
+    SERVER_FROM_FD.with(|c| c.set(false));
+    KILL_AFTER_START.with(|c| c.set(false));
     let ops = input.params();
     let mut w = World::new(6, false, obs.want_render).map_err(|e| Fail::new("harness-world", e))?;
     let wit = 0usize;
@@ -837,6 +842,7 @@ pub fn c09() -> PropDef {
 
 fn c10_hist(input: &Input, obs: &mut Obs) -> Result<(), Fail> {
     let mut s = Src::new(input.bytes());
+    world_variant(&mut s);
     let nslots = 64;
     let mut w = World::new(nslots, false, obs.want_render).map_err(|e| Fail::new("harness-world", e))?;
     let mut next_slot = 0usize;
@@ -1095,6 +1101,7 @@ fn c10_hist(input: &Input, obs: &mut Obs) -> Result<(), Fail> {
 /// closes and connects interleave between two requests() calls. Only order-insensitive oracles.
 fn c10_micro(input: &Input, obs: &mut Obs) -> Result<(), Fail> {
     let mut s = Src::new(input.bytes());
+    world_variant(&mut s);
     let nslots = 48;
     let mut w = World::new(nslots, false, obs.want_render).map_err(|e| Fail::new("harness-world", e))?;
     let mut next_slot = 0usize;
@@ -1301,6 +1308,9 @@ fn c07_audit_all(w: &World) -> Result<(), (String, String)> {
 
 /// macro-operation sequences for two roles; each role uses a fresh slot per connect
 fn c07_macro_run(ops: &[MOp], obs: &mut Obs) -> Result<(), Fail> {
+    // construction variant fixed for this sub (replays must not depend on earlier cases)
+    SERVER_FROM_FD.with(|c| c.set(false));
+    KILL_AFTER_START.with(|c| c.set(false));
     let mut w = World::new(8, false, obs.want_render).map_err(|e| Fail::new("harness-world", e))?;
     let mut slot_of: [Option<usize>; 2] = [None, None];
     let mut next_slot = 0;
@@ -1509,6 +1519,7 @@ fn c07_macro_enum(tier: Tier, shard: u64, nshards: u64, f: &mut dyn FnMut(&[u64]
 
 fn c07_hist(input: &Input, obs: &mut Obs) -> Result<(), Fail> {
     let mut s = Src::new(input.bytes());
+    world_variant(&mut s);
     let skeleton = s.weighted(&[6, 6, 3]);
     let nslots = if skeleton == 2 { 24 } else { 10 };
     let mut w = World::new(nslots, false, obs.want_render).map_err(|e| Fail::new("harness-world", e))?;
@@ -1885,6 +1896,7 @@ fn k_transcript(w: &World) -> KTranscript {
 
 fn c18_kill(input: &Input, obs: &mut Obs) -> Result<(), Fail> {
     let mut s = Src::new(input.bytes());
+    world_variant(&mut s);
     let (ops, fill) = k_gen(&mut s);
     let extra_seed = s.u32();
     // API call order: kill switch registered before or after start_server
@@ -2018,6 +2030,9 @@ pub fn c18() -> PropDef {
 // server parts of C04, C11, C13
 
 fn c04_server(input: &Input, obs: &mut Obs) -> Result<(), Fail> {
+    // construction variant fixed for this sub (replays must not depend on earlier cases)
+    SERVER_FROM_FD.with(|c| c.set(false));
+    KILL_AFTER_START.with(|c| c.set(false));
     let mut s = Src::new(input.bytes());
     let mut w = World::new(8, false, obs.want_render).map_err(|e| Fail::new("harness-world", e))?;
     let limits = [0usize, 1, 2, 5, 8, 1023, 1024, 1025, 51199, 51200, 51201];
@@ -2123,6 +2138,9 @@ pub fn c04_server_sub() -> (&'static str, SubFn) {
 }
 
 fn c11_server(input: &Input, obs: &mut Obs) -> Result<(), Fail> {
+    // construction variant fixed for this sub (replays must not depend on earlier cases)
+    SERVER_FROM_FD.with(|c| c.set(false));
+    KILL_AFTER_START.with(|c| c.set(false));
     let mut s = Src::new(input.bytes());
     let mut w = World::new(3, false, obs.want_render).map_err(|e| Fail::new("harness-world", e))?;
     let mut after = 0;
@@ -2234,6 +2252,9 @@ pub fn c11_server_sub() -> (&'static str, SubFn) {
 }
 
 fn c13_server(input: &Input, obs: &mut Obs) -> Result<(), Fail> {
+    // construction variant fixed for this sub (replays must not depend on earlier cases)
+    SERVER_FROM_FD.with(|c| c.set(false));
+    KILL_AFTER_START.with(|c| c.set(false));
     let mut s = Src::new(input.bytes());
     let mut w = World::new(2, false, obs.want_render).map_err(|e| Fail::new("harness-world", e))?;
     let mut done = 0;
